@@ -55,7 +55,7 @@ CHECKS["C13"] = dict(
     design_ref="DESIGN.md §3.2, §4 C13", assumptions=WORLD_ASSUME)
 
 CHECKS["C14"] = dict(
-    pkg="cluster", tests=[T("TestC14", 50, 16000, shards=32, shrinktime="90s", timeout_q=1800)], level="fault_enumeration",
+    pkg="cluster", tests=[T("TestC14", 64, 16000, shards=32, shrinktime="90s", timeout_q=1800)], level="fault_enumeration",
     technique="crash-point enumeration driven by rapid: the deployment is recorded fault-free, the world restored, and re-run with the old instance frozen at a recorded step (before it takes effect, or after it took effect but before the caller sees the result); leases revoked, a new Calcium on the same store/WAL file/engine runs DisasterRecover; oracle on store, engine and usage",
     rule="generated setup, optional prefix, one deployment (1-4 nodes, 1-4 instances, all strategies), crash position drawn from the recorded steps plus 'after the last step' (thorough: 20% of the cases iterate every position in both flavours). After recovery: usage == sum of workloads on every node, no /processing key, every new recorded workload has a running container, pre-existing workloads/containers untouched, unrecorded containers only where the dying instance had created one without having logged it. Non-trivial = crash strictly between the first allocation and the last commit; distinct by hash of the case",
     level_text="Every externally visible step of the recorded deployment is a candidate crash point, in two flavours; sampled in quick, enumerated for a fifth of the cases in thorough. Crash = no further effect of the old process; torn writes inside etcd/bbolt are out of scope.",
